@@ -3,7 +3,17 @@ deterministic scenarios through harness/ctl.py, oracles in harness/m1.py."""
 
 from .. import m1
 
-REQUIRED_THEOREMS = []
+REQUIRED_THEOREMS = [
+    "C16.promptness",
+    "C16.ordered_yields_in_order_init",
+    "C16.ordered_yields_in_order",
+    "C16.pause_keeps_order",
+    "C16.unordered_each_exactly_once",
+    "C16.unordered_completion_order_partial",
+    "C16.overlap_raises",
+    "C16.close_stops_dispatch",
+    "C16.close_leaves_clean",
+]
 TRUSTED_EXTRA = [
     "M1 granularity: completion callbacks are atomic and happen at hook points of the caller (configure, compute_batch_size, sleep, consumer "
     "pauses); interleavings inside a callback or between two bytecodes of the caller are not in the model",
